@@ -66,9 +66,24 @@ def param_hash(params):
     return hashlib.sha1(json.dumps(params, sort_keys=True, default=str).encode()).hexdigest()[:10]
 
 
+_BUILD_COUNTER = [0]
+
+
 def get_lcm_function(model, targets, jit=True):
+    """Build through the public entry point. Call variants that must not matter are rotated:
+    debug_mode (the library's default is True), keyword vs positional `targets`."""
     from lcm.entry_point import get_lcm_function as g
 
+    _BUILD_COUNTER[0] += 1
+    k = _BUILD_COUNTER[0]
+    if k % 3 == 0:
+        import logging
+
+        logging.disable(logging.CRITICAL)  # the default debug_mode=True path, without flooding stdout
+        try:
+            return g(model, targets=targets, jit=jit) if jit is not True else g(model, targets=targets)
+        finally:
+            logging.disable(logging.NOTSET)
     return g(model, targets, debug_mode=False, jit=jit)
 
 
